@@ -12,7 +12,12 @@ import os
 import vlib
 
 KEEP = {"Cfg", "QAccept", "TStart", "TAddRcpt", "TBody", "TBodyNA", "TCommit", "TAbort",
-        "Dsn", "Quiesced"}
+        "Dsn", "Dsn2", "Quiesced"}
+
+REPORT_PREDS = {"ReportNotWellFormed", "ReportReturnPathNotNull", "ReportNotToSender",
+                "ReportLacksOriginalHeader", "ReportUsesRewrittenAddress", "ReportStatusMismatch",
+                "ReportOmitsFailedRcpt", "ReportListsRcptTwice", "ReportAlthoughSuppressed",
+                "ReportAboutReport"}
 
 MC_CFG = """SPECIFICATION Spec
 CONSTANTS
@@ -20,6 +25,9 @@ CONSTANTS
   MaxTriesSet = {%(mts)s}
   MaxList = %(maxlist)d
   Devs = {%(devs)s}
+  RwSets = %(rwsets)s
+  Utf8Set = %(utf8set)s
+  BounceStages = %(stages)s
   Gen = %(gen)s
 %(tail)s
 """
@@ -30,14 +38,20 @@ CONSTANTS
   MaxTriesSet = {1, 2, 3}
   MaxList = 3
   Devs = {%(devs)s}
+  RwSets = {{}, {"r1"}, {"r1", "r2"}}
+  Utf8Set = {TRUE, FALSE}
+  BounceStages = {"ok", "start", "rcpt", "body", "commit"}
   Gen = FALSE
 CHECK_DEADLOCK FALSE
 POSTCONDITION Post
 """
 
 
-def cfg(rcpts, mts, maxlist, devs=(), gen=False, tail=""):
-    return MC_CFG % dict(rcpts=", ".join('"%s"' % r for r in rcpts),
+DIMS_C01 = dict(rwsets="{{}}", utf8set="{FALSE}", stages='{"ok"}')
+
+
+def cfg(rcpts, mts, maxlist, devs=(), gen=False, tail="", dims=None):
+    return MC_CFG % dict(dims or DIMS_C01, rcpts=", ".join('"%s"' % r for r in rcpts),
                          mts=", ".join(str(m) for m in mts), maxlist=maxlist,
                          devs=", ".join('"%s"' % d for d in devs),
                          gen="TRUE" if gen else "FALSE", tail=tail)
@@ -73,15 +87,22 @@ def nontrivial(b):
 
 
 def run(ctx, replay):
+    run_queue(ctx, replay, "C01", lambda v: v not in REPORT_PREDS, DIMS_C01, {})
+
+
+def run_queue(ctx, replay, pid, mine, dims, opts):
+    """Shared by C01 and C18: `mine` selects the predicate names that decide this property,
+    `dims` the report dimensions of the model, opts: {"known": fn(viol, behaviour, trace) -> (fid, what) | None,
+    "post": fn(behaviours) (e.g. switch some to chain mode)}."""
     thorough = ctx.tier == "thorough"
     # ---- (T) exhaustive model checking of the design ----------------------
     if not replay:
         if thorough:
             r = ctx.tlc_expect_ok("Queue", None, name="mc", workers=16, timeout=2400,
-                                  cfg_text=cfg(["r1", "r2", "r3"], [1, 2, 3], 3, tail=MC_TAIL))
+                                  cfg_text=cfg(["r1", "r2", "r3"], [1, 2, 3], opts.get("maxlist_thorough", 3), tail=MC_TAIL, dims=dims))
         else:
             r = ctx.tlc_expect_ok("Queue", None, name="mc", workers=8, timeout=600,
-                                  cfg_text=cfg(["r1", "r2"], [1, 2, 3], 2, tail=MC_TAIL))
+                                  cfg_text=cfg(["r1", "r2"], [1, 2, 3], 2, tail=MC_TAIL, dims=dims))
         ctx.cov["states"] = r["distinct"]
         ctx.cov["transitions"] = r["generated"]
         ctx.cov["model_depth"] = r["depth"]
@@ -104,7 +125,7 @@ def run(ctx, replay):
         behs = []
         if thorough:
             g = ctx.tlc("Queue", None, name="gen", workers=8, timeout=1800,
-                        cfg_text=cfg(["r1", "r2"], [1, 2], 2, gen=True, tail=GEN_TAIL))
+                        cfg_text=cfg(["r1", "r2"], [1, 2], 2, gen=True, tail=GEN_TAIL, dims=opts.get("gen_dims", dims)))
             if not g["ok"]:
                 raise vlib.Infra("behaviour generation failed: %s %s" % (g["invariant"], g["error"]))
             behs += behaviours_from(g, 1)
@@ -113,13 +134,15 @@ def run(ctx, replay):
         else:
             n_sim = 400
         g = ctx.tlc("Queue", None, name="sim", workers=1, timeout=900, simulate=n_sim, depth=80,
-                    cfg_text=cfg(["r1", "r2", "r3"], [1, 2, 3], 3, gen=True, tail=GEN_TAIL))
+                    cfg_text=cfg(["r1", "r2", "r3"], [1, 2, 3], 3, gen=True, tail=GEN_TAIL, dims=dims))
         if not g["ok"]:
             raise vlib.Infra("behaviour simulation failed: %s %s" % (g["invariant"], g["error"]))
         behs += behaviours_from(g, len(behs) + 1)
         behs = dedup(behs)
         if not behs:
             raise vlib.Infra("TLC produced no behaviours")
+    if opts.get("post") and not replay:
+        opts["post"](ctx, behs)
     ctx.log("%d behaviours to replay" % len(behs))
 
     # ---- replay on the real queue --------------------------------------------
@@ -133,7 +156,8 @@ def run(ctx, replay):
         base = None
         for b in behs:
             evs = [e for e in events if e["t"] == b["id"]]
-            if any(e["e"] == "TCommit" and e["res"] == "ok" for e in evs) and \
+            if b["cfg"]["bounce"] and not b["cfg"]["nullSender"] and \
+                    any(e["e"] == "TCommit" and e["res"] == "ok" for e in evs) and \
                     sum(1 for e in evs if e["e"] == "TAddRcpt") >= 2:
                 base = evs
                 break
@@ -160,19 +184,25 @@ def run(ctx, replay):
             if accepted:
                 raise vlib.Infra("binding self-test failed: %s trace was accepted" % selftest[t])
             continue
-        viol = sorted(set(v for r in recs for v in r["viol"]))
+        viol = sorted(set(v for r in recs for v in r["viol"] if mine(v)))
         conform = any(not r["drift"] for r in recs)
+        if viol and opts.get("known"):
+            k = opts["known"](viol, by_id[t], by_t[t])
+            if k:
+                ctx.known(*k)
+                viol = []
+                conform = True
         if viol:
             for v in viol:
                 preds[v] = preds.get(v, 0) + 1
             what = "queue behaviour violates " + ",".join(viol)
-            ctx.violation(what, {"property": "C01", "behaviour": by_id[t], "trace": by_t[t],
-                                 "violated": viol, "how": "bin/check C01 --replay <this file>"})
+            ctx.violation(what, {"property": pid, "behaviour": by_id[t], "trace": by_t[t],
+                                 "violated": viol, "how": "bin/check %s --replay <this file>" % pid})
         elif conform:
             ok += 1
         else:
             drift += 1
-            print("DRIFT property=C01 trace=%d first-unexplained-seq=%s" % (t, recs[0]["driftAt"]))
+            print("DRIFT property=" + pid + " trace=%d first-unexplained-seq=%s" % (t, recs[0]["driftAt"]))
     if selftest:
         ctx.cov["binding_selftest"] = "corrupted-field and dropped-event traces rejected"
     ctx.cov["traces_validated_against_impl"] = ok
